@@ -1,15 +1,15 @@
 CONSTANTS
   Names = {"a", "b", "c"}
-  ShapeIds = {1, 2, 3, 4, 5, 6, 10}
+  ShapeIds = {1, 2, 3, 4, 5, 6, 7, 8, 9, 10}
   ExtNames = {"a", "c"}
   MaxMods = 4
   MaxExt = 2
   MaxToggle = 2
+  IllMaxStep = 2
   Depth = 6
 INIT Init
 NEXT Next
 VIEW View
-CONSTRAINT Bound
 ACTION_CONSTRAINT Emit
 INVARIANTS BindLatest LocalBinding RedefRejected ConstructErrors UndefinedReported EnvIsLatest Shape
 PROPERTIES OldBindingsStable
